@@ -110,7 +110,17 @@ func (g *gen) encode(v string) string {
 	}
 }
 
-func (g *gen) lit() string { return g.encode(g.strContent()) }
+func (g *gen) lit() string {
+	if g.r.Chance(1, 8) {
+		// a literal of the string stream (expr.go): all four quotings, non-standard escapes, quotes of the other kind,
+		// backslash-newline continuations inside triple-quoted literals only
+		if l := genLit(g.r, false); !(l.Single && l.Cont) {
+			g.f("tricky_literal")
+			return l.token()
+		}
+	}
+	return g.encode(g.strContent())
+}
 
 // plainLit is a literal without characters that are special inside f-strings or % formats.
 func (g *gen) plainLit() string {
